@@ -1,14 +1,15 @@
 """C16 - numerical kernels meet their contracts (decided clauses: GL tables and panel driver, rotation algebra, Simpson)."""
 from .. import project
 from ..framework import Report, where
-from ..rules import tablemath, panels, symalg, simpson
+from ..rules import tablemath, panels, symalg, simpson, qng
 from ..rules.symalg import Poly
 
 
 def run(tier, seed):
     rep = Report('C16')
     prog = project.load(files=[project.repo_unit('bxdecay0/dgmlt1.cc'), project.repo_unit('bxdecay0/dgmlt2.cc'),
-                               project.repo_unit('bxdecay0/utils.cc'), project.repo_unit('bxdecay0/tsimpr.cc')])
+                               project.repo_unit('bxdecay0/utils.cc'), project.repo_unit('bxdecay0/tsimpr.cc'),
+                               project.repo_unit('bxdecay0/gauss.cc')])
     rep.analysed['units'] = sorted(project.relpath(u) for u in prog.units)
     tablemath.check_tables(rep, prog)
     rep.floor('TABLE-MATH.moments', sum(1 for i in rep.instances if i.rule == 'TABLE-MATH.moments'), 56)
@@ -51,9 +52,11 @@ def run(tier, seed):
     for nm, sz in (('transpose', None), ('multiply', None)):
         pass
     simpson.check(rep, prog)
+    qng.check(rep, prog)
     rep.assumptions += [
         'decides: Gauss-Legendre table exactness (moment identities, exact rationals), table/sibling agreement, the panel driver (every node '
         'summed once with its own weight, affine node map, scale), rotate_zyz algebra, Simpson weights and exactness on cubics as polynomial identities',
-        'not decided: adaptive quadrature tolerance (GSL QNG), golden section, divided differences, Fermi function values',
+        'decided for the adaptive quadrature: only that QNG is asked for the caller\'s relative tolerance with absolute floor 0 (QNG.tolerance); '
+        'not decided: that GSL QNG then meets it, golden section, divided differences, Fermi function values',
     ]
     return rep
